@@ -5,7 +5,7 @@ import random
 import vlib
 from props import fam_sym as S
 
-MODEL_VO = ['Map/MapSg.vo', 'Map/Stream.vo', 'Map/GzGrow.vo', 'Map/Setup.vo', 'Map/GridOps.vo', 'Map/Arr.vo', 'Map/GridIndex.vo']
+MODEL_VO = ['Map/MapSg.vo', 'Map/Stream.vo', 'Map/GzGrow.vo', 'Map/Setup.vo', 'Map/GridOps.vo', 'Map/Arr.vo', 'Map/GridIndex.vo', 'Map/BrickEnd.vo']
 PERMS = [(1, 2, 3), (1, 3, 2), (2, 1, 3), (2, 3, 1), (3, 1, 2), (3, 2, 1)]
 NAN_Z = -1000000
 
